@@ -141,6 +141,8 @@ def run_realign(case, d, platform=None, cores=None, batch=None, sub="out.gaf", g
     if not os.path.exists(fa):
         core.write_text(fa, case["fasta"])
     out = os.path.join(d, sub)
+    if len(case["gaf"]) % 2 == 1 and not os.path.exists(out):
+        core.write_text(out, "left over from an earlier run\n" * 3)  # -o names a file that exists: it is replaced
     old_mp = R.mp
     old_env = os.environ.get("GAFTOOLS_VERIF_REALIGN_BATCH")
     b = batch if batch is not None else case.get("batch")
